@@ -1127,13 +1127,18 @@ def proc_fit(rng, op, notes):
             pc[2 * c0 + 1] = 0
     x, y, w = cell_data(nord, S, pc, rng, sprinkle=False)
     nonfinite = False
+    wclass, pcfin, ibad, wfin = '', pc, None, None
     if op == 'Z':
         w = np.zeros_like(w)
         pc = [0] * (2 * S + 1)
     elif op == 'I':
         w = w.copy()
-        w[rng.randrange(w.size)] = rng.choice([np.inf, np.inf, np.nan])
+        ibad = rng.randrange(w.size)
+        wclass = rng.choice(['inf', 'nan'])
+        w[ibad] = np.inf if wclass == 'inf' else np.nan
         nonfinite = True
+        wfin = np.where(np.isfinite(w) & (w > 0), w, 0.0)
+        pcfin = support_counts(np.array(knots_for(nord, S), dtype='d'), nord, x, wfin)[1]
     elif op == 'Q':
         c0 = rng.randrange(S)
         x = np.full(6, c0 + 0.5)
@@ -1149,9 +1154,21 @@ def proc_fit(rng, op, notes):
         o = call_fit(s, x, y, w)
         out.append({'op': 'fit', 'which': op, 'nord': nord, 'S': S, 'pc': pc, 'mask': good(o['before']), 'after': good(o['after']),
                     'st': o['st'] if isinstance(o['st'], int) else 99, 'finite': bool(o['finite']) or bool(o['exc']),
-                    'illcond': bool(ill), 'nonfinite': nonfinite, 'exc': o['exc'] or '', 'gsb': o['gsb'], 'gsa': o['gsa']})
+                    'illcond': bool(ill), 'nonfinite': nonfinite, 'exc': o['exc'] or '', 'gsb': o['gsb'], 'gsa': o['gsa'],
+                    'wclass': wclass, 'pcfin': list(pcfin), 'disc': 0, 'tol': LAWTOL, 'condok': False})
         if o['exc'] or o['st'] != -1:
             break
+    if nonfinite and out and out[-1]['st'] == 0 and not out[-1]['exc']:
+        # an answer 0 with a non-finite weight: measured against what the specification admits
+        with np.errstate(all='ignore'):
+            if wclass == 'inf':
+                sc = max(np.abs(y).max(), 1e-300)
+                out[-1]['disc'] = units(abs(float(o['yfit'][ibad]) - float(y[ibad])), sc)
+            else:
+                meas = masked_measure(s, x, y, wfin, o['yfit'], rng)
+                out[-1]['disc'], out[-1]['condok'] = meas['disc'], bool(meas['condok'])
+                if meas['exc']:
+                    out[-1]['exc'] = meas['exc']
     return out
 
 
